@@ -216,6 +216,75 @@ def check_solver(cfg, acc):
                         continue
                     acc.outcome((F["class"], name, F["constraint"], F["metric"], dt, push, si,
                                  str(sorted(kw.items()))))
+                _tolerance_ladder(S, con, fn, q, p, dt, push, d, acc, viol, si)
+
+
+REF_NORMS = {"max": lambda v: float(np.max(np.abs(np.asarray(v, dtype=float)))),
+             "euclidean": lambda v: float(np.sqrt(np.sum(np.asarray(v, dtype=float) ** 2)))}
+
+
+def _tolerance_ladder(S, con, fn, q, p, dt, push, d, acc, viol, si):
+    """Boundary-targeted clause for "returns only when the residual (in the CHOSEN norm) is below
+    the tolerance": the residuals e_0, e_1, ... the solver sees along its iteration are recorded
+    with a reference norm handed in as `norm=`; then, for each documented norm function of
+    mici.solvers and each recorded level e, the solver runs with constraint_tol = 0.85 e (so the
+    iterate with residual e must NOT be accepted) and whatever it returns is measured with the
+    reference norm.  Enumerates every stopping point of the iteration, for both norms."""
+    from mici import solvers as SV
+    from mici.errors import ConvergenceError
+
+    K = con.n_constr
+    if K == d:
+        return
+    real = {"max": SV.maximum_norm, "euclidean": SV.euclidean_norm}
+
+    def start():
+        prev = zoo.mk_state(q, p)
+        st = prev.copy()
+        S.h2_flow(st, dt)
+        if push:
+            st.pos = np.array(st.pos) + push * np.array([0.6, -0.4, 0.5])[:d]
+        return st, prev
+
+    for nname, ref in REF_NORMS.items():
+        seen = []
+
+        def rec(v, ref=ref, seen=seen):
+            r = ref(v)
+            if np.shape(v) == (K,):
+                seen.append(r)
+            return r
+
+        try:
+            st, prev = start()
+            fn(st, prev, dt, S, norm=rec, constraint_tol=0.0, max_iters=6)
+        except Exception:  # noqa: BLE001, S110
+            pass  # never converges by construction (tolerance 0); may also diverge
+        levels = sorted({r for r in seen if 1e-12 < r < 1e3}, reverse=True)[:6]
+        for e in levels:
+            tol = 0.85 * e
+            acc.count("evaluations")
+            acc.count("ladder_calls")
+            try:
+                st, prev = start()
+                out = fn(st, prev, dt, S, norm=real[nname], constraint_tol=tol,
+                         position_tol=1e300, max_iters=50)
+            except ConvergenceError:
+                acc.count("ladder_raised")
+                continue
+            except Exception as ex:  # noqa: BLE001
+                viol("exception", "ladder:" + type(ex).__name__, repr(ex)[:200],
+                     "ConvergenceError or a state", dt=dt, state=si, push=push, norm=nname,
+                     constraint_tol=tol)
+                continue
+            if out is not st and out is not None:
+                st = out
+            res = ref(con.c(np.array(st.pos)))
+            acc.count("ladder_returned")
+            if not res < tol * (1 + 1e-9):
+                viol("solver", "returned_above_tolerance_in_chosen_norm:" + nname, res,
+                     f"< {tol}", dt=dt, state=si, push=push, norm=nname, constraint_tol=tol,
+                     n_constraints=K)
 
 
 def check_config(cfg, acc):
